@@ -59,5 +59,22 @@ Theorem C04_step_covariant :
 Proof. exact step_covariant. Qed.
 Print Assumptions C04_step_covariant.
 
+(* every step of a run: runs whose links are gauge-related at every step (time-dependent potentials included), whose
+   initial order parameters are gauge-related and whose initial potentials agree refuse the same steps and produce the
+   same potential and currents and gauge-related order parameters at every step.  The phase factor exp(-i mu dt) of
+   each step is formed from the previous step's potential (expi: any function). *)
+Theorem C04_run_covariant :
+  forall (a : nat -> R) (n : nat) (es : list edgeR) (fixed : list nat)
+         (solve : (nat -> R) -> nat -> R) (expi : R -> RC) (gz : nat -> RC),
+    (forall i, cabs2 OpsR (gz i) = 1) -> NoDup fixed ->
+  forall (gamma u : R) (l : list (step_in OpsR)) (psi psiG : nat -> RC) (mu muG : nat -> R),
+    Forall (fun i => length (si_U _ i) = length es) l ->
+    (forall r, psiG r = cxmul (gz r) (psi r)) -> (forall r, muG r = mu r) ->
+    Forall2 (entry_gauged gz)
+      (run_steps OpsR a n es fixed solve None expi gamma u psi mu l)
+      (run_steps OpsR a n es fixed solve None expi gamma u psiG muG (map (gauge_in es gz) l)).
+Proof. exact run_covariant. Qed.
+Print Assumptions C04_run_covariant.
+
 Example C04_nonvacuous : cabs2 OpsR ((0, 1) : RC) = 1.
 Proof. unfold cabs2. cbn. ring. Qed.
